@@ -434,6 +434,11 @@ fn parse_mh2o_chunk<R: Read + Seek>(
     // Parse instances and attributes for each header
     let mut entries = Vec::with_capacity(Mh2oChunk::ENTRY_COUNT);
 
+    // Upper bound for the number of instance records stored in this chunk. Headers that
+    // point at overlapping data with huge layer counts would otherwise make every one of
+    // the 256 entries re-read (and allocate vertex grids for) the rest of the file.
+    let mut instance_budget = chunk_size as usize / Mh2oInstance::SIZE;
+
     for header in headers {
         let mut instances = Vec::new();
         let mut attributes = None;
@@ -448,6 +453,13 @@ fn parse_mh2o_chunk<R: Read + Seek>(
 
                 // Parse each instance
                 for _ in 0..header.layer_count {
+                    // layer_count is untrusted: never read more instance records than
+                    // the chunk can physically hold (all 256 headers together)
+                    if instance_budget == 0 {
+                        break;
+                    }
+                    instance_budget -= 1;
+
                     match Mh2oInstance::read_le(reader) {
                         Ok(instance) => instances.push(instance),
                         Err(_) => break, // Stop on parse error
